@@ -18,15 +18,31 @@ ASSUMPTIONS = ["floating point rounding below 1e-9 is not observable",
                "knot vectors are clamped with interior multiplicities <= degree; parameters lie in the knot-vector domain",
                "insertion parameters are at least 1/128 away from every knot they do not coincide with (multiplicity tolerance 1e-7 is not probed)",
                "a multi-direction call in which one direction is inadmissible is only required to keep the evaluated shape (the property speaks of single-direction rejections)"]
-THEOREM_NOTES = "see coq/Props/C04.v"
-LEVEL_TEXT = ("Coq theorems over the reals about the executable Gallina model of helpers.knot_insertion(_kv) and operations.insert_knot: "
-              "[G] knot vector specification; [G] control-net shape; [G] a single insertion (num = 1) of the model preserves every curve point, "
-              "for all degrees, knot vectors, multiplicities and parameters (via Boehm's identity); [G] direction lifting of the row-wise "
-              "algorithm for surfaces and volumes and rejection leaves the object unchanged; num > 1 is tied to repeated single insertion by "
-              "the correspondence check and the exact oracle (see Props/C04.v for what is proved about it).")
-LEVEL_NOTE = ("The model is tied to /repo by the sampled correspondence check (tolerance 1e-9); curve points in the theorems are the "
-              "Cox-de Boor sums, their equality with the evaluators is property C01.")
-TECHNIQUE = "Coq proof (Boehm identity, induction) + Gallina model executed by vm_compute against geomdl outputs + exact Fraction oracle"
+THEOREM_NOTES = ("coq/Props/C04.v, all [G] (all degrees, all sorted knot vectors with any multiplicities, all parameters, all admissible counts): "
+                 "knot_vector_spec; net_shape; single_insertion_is_boehm; single_insertion_preserves_curve; r_fold_is_iterated_single; "
+                 "insertion_preserves_curve (any count); surface_v_is_rowwise / surface_u_is_columnwise; insertion_preserves_surface (u and v); "
+                 "volume_is_fibrewise; insertion_preserves_volume (u, v, w); insert_knot_curve_correct (whole curve operation incl. span and "
+                 "multiplicity search: rejected and unchanged, or same points); curve/surface states are the operation's; rejected_leaves_"
+                 "curve/surface/volume_unchanged")
+LEVEL_TEXT = ("Proof (Coq, reals) about the executable Gallina model of helpers.knot_insertion(_kv), operations.insert_knot and the object wrappers. "
+              "General [G] theorems, no bound on degree, sizes, multiplicities or insertion count: the new knot vector is the old one plus exactly "
+              "num copies of u in sorted position; the net grows by num, points left of the window are copied and right of it shifted; a single "
+              "insertion computes Boehm's points and (Boehm's identity, proved for all degrees) leaves every curve point (Cox-de Boor sum, every "
+              "homogeneous coordinate, hence rational shapes) unchanged; A5.1 with num = r+1 equals one more single insertion applied to the num = r "
+              "result, hence every admissible count preserves the curve; surfaces (u: gather columns / flip_ctrlpts_u scatter, v: rows) and volumes "
+              "(u, v, w: rows of points) are fibre-wise the curve algorithm (index maps proved) and every surface / volume point is unchanged in the "
+              "direction of insertion while the other directions are untouched; the curve operation as a whole (span search, multiplicity search "
+              "with the code's tolerance, check_num) either rejects exactly when num > degree - multiplicity and returns the curve unchanged, or "
+              "preserves all points; an inadmissible single-direction insertion leaves curve, surface and volume (each direction) unchanged. "
+              "Only tied by the correspondence check + exact oracle (not Coq theorems): for surfaces/volumes the link between the span / "
+              "multiplicity searches and the hypotheses on k and s (proved for curves), sequences of calls (composition of the per-call theorems), "
+              "check_num=False, floating-point rounding, and that the evaluators compute the Cox-de Boor sums (C01).")
+LEVEL_NOTE = ("Trusted: Coq 8.16.1 kernel incl. vm_compute; standard-library axioms of Reals (sig_forall_dec, functional_extensionality_dep) as "
+              "printed by Print Assumptions; the hand-written model's fidelity is sampled by the correspondence check on every run (helpers, "
+              "operations.insert_knot on curve/surface/volume x rational x all direction subsets, wrapper histories; 1e-9 tolerance); "
+              "floating-point rounding is modelled as exact.")
+TECHNIQUE = ("Coq proof (Boehm's identity by induction on the degree; loop invariants of A5.1 over functional arrays; de Boor triangle closed form; "
+             "index-map lemmas by lia/nia) on a Gallina model executed by vm_compute against geomdl outputs + exact Fraction before/after oracle")
 
 
 # ------------------------------------------------------------------ generators
